@@ -9,7 +9,7 @@ from lib import datasheet as ds
 from lib.coreprop import core_shards, run_core_shard, replay_core
 
 ID = "C04"
-REQUIRED_CLASSES = ['idle_exact_period', 'refresh_under_traffic', 'zqcs_seen']      # classes that must occur in every run (else harness error: vacuous generator)
+REQUIRED_CLASSES = ['idle_exact_period', 'refresh_under_traffic', 'zqcs_seen', 'row_thrash_stream']      # classes that must occur in every run (else harness error: vacuous generator)
 LEVEL = "exploration"
 RULE = ("case = (configuration with refresh on: datasheet tREFI of a library/generated module at a generated clock, or shortened 100-250 cycles; postponing 1-8; ZQCS on/off) x "
         "(traffic from idle to saturating single-bank / all-write / all-read streams looped for >= 3.5 refresh sequences); non-trivial = >= 3 refresh sequences of which at "
@@ -135,6 +135,8 @@ def oracle(run):
             open_rows.pop((ranks, bank), None)
     if busy:
         classes.add("refresh_under_traffic")
+    if run.stim.get("kind") == "thrash":
+        classes.add("row_thrash_stream")
     nseq = len(seq_starts)
     nt = nseq >= 3 and (busy or idle)
     return fs, classes, nt
@@ -165,13 +167,30 @@ def _stim(draw, cfg, tier):
     span = int((3.6 if tier == "quick" else 6.5) * N * I) + 200
     span = min(span, 12000 if tier == "quick" else 40000)
     pool = draw(cc.loc_pool(cfg))
-    kind = draw(st.sampled_from(["idle", "loop", "loop", "loop", "burst"]))
+    kind = draw(st.sampled_from(["idle", "loop", "loop", "loop", "burst", "thrash", "thrash"]))
     ports = []
     loops = []
+    am = cc.addrmap_of(cfg)
+    W = cc.word_width(cfg)
     for _ in cfg["ports"]:
         if kind == "idle":
             ports.append([])
             loops.append(0)
+        elif kind == "thrash":
+            # saturating stream to ONE bank in which every access goes to another row than the previous one (each head command is a row
+            # miss / auto-precharge candidate), all reads, all writes or mixed
+            rk, bk = draw(st.integers(0, cfg.get("nranks", 1) - 1)), draw(st.integers(0, (1 << cfg["bankbits"]) - 1))
+            nrows = draw(st.integers(2, 4))
+            dirn = draw(st.integers(0, 2))
+            ops = []
+            for i in range(nrows * 2):
+                we = dirn if dirn < 2 else (i // nrows) & 1
+                op = dict(we=we, addr=am.encode(rk, bk, i % nrows, (i % 3) << am.align), gap=0)
+                if we:
+                    op.update(data=draw(st.integers(0, (1 << W) - 1)), be=(1 << (W // 8)) - 1, lead=0)
+                ops.append(op)
+            ports.append(ops)
+            loops.append(span)
         else:
             style = draw(st.sampled_from(["stream", "writes", "reads", "mixed", "alternate", "stream"]))
             ops = draw(cc.port_ops(cfg, pool, max_ops=24, style=style, min_ops=2))
@@ -180,7 +199,7 @@ def _stim(draw, cfg, tier):
                     op["gap"] = min(op.get("gap", 0), 2)
             ports.append(ops)
             loops.append(span if kind == "loop" else 0)
-    return dict(pool=[list(p) for p in pool], ports=ports, loop_until=loops, span=span)
+    return dict(pool=[list(p) for p in pool], ports=ports, loop_until=loops, span=span, kind=kind)
 
 
 def stim_strategy(cfg, tier):
